@@ -206,7 +206,11 @@ func emitTypedWith(cw *caseWriter, f, ty string, v interface{}, batchBack string
 	}
 	cw.count("pair:" + f + "(" + ty + ")")
 	s := dynStr(v)
-	cw.emit("typed "+f+" "+ty+" "+s, true, "typed", "C13", f, ty, s, extStr(ext), written, back1, back2)
+	kind := "typed"
+	if cast.TimeStringFormat != time.RFC3339 {
+		kind = "typedl" // another layout set by the program: judged by the lossless oracle alone
+	}
+	cw.emit(kind+" "+f+" "+ty+" "+s+" "+cast.TimeStringFormat, true, kind, "C13", f, ty, s, extStr(ext), written, back1, back2)
 }
 
 // emitImp: row-level import (C10, last sentence): ImportAtKey of v into the column c declared (f, ty) of a
@@ -394,6 +398,23 @@ func genC13(cw *caseWriter, seed uint64, tier string) {
 	if tier == "thorough" {
 		n = 300
 	}
+	// the documented package variable cast.TimeStringFormat set by the program to other layouts that lose nothing at
+	// one second (date, time of day and numeric offset all there): the time columns of the lossless table still give
+	// back what they were given — whatever is written with the layout is read with the layout
+	for _, layout := range []string{"2006-01-02 15:04:05Z07:00", time.RFC1123Z, "02/01/2006 15:04:05 -0700", "20060102T150405Z0700"} {
+		saved := cast.TimeStringFormat
+		cast.TimeStringFormat = layout
+		// (auto x time.Time is left out: an Auto column hands the time.Time to encoding/json, which always writes
+		// RFC 3339, while reading it back goes through the layout — with another layout set, that pairing is lossless
+		// on the unchanged tree only under the pinned layout; DESIGN §10)
+		for _, pr := range [][2]string{{"datetime", "time"}, {"datetime", "none"}, {"string", "time"}} {
+			for _, v := range valuesOfTy(r, "time", n) {
+				emitTyped(cw, pr[0], pr[1], v)
+			}
+		}
+		cast.TimeStringFormat = saved
+	}
+	keptExporters = map[string]*keptExporter{}
 	for _, f := range fmtNames {
 		for _, ty := range tyNames {
 			if f == "hidden" {
